@@ -173,6 +173,40 @@ def run(ctx):
     res.site(key, True, dict(detail, verdict="ok" if ok else "VIOLATION"))
     if not ok:
         res.find(key, sbr.loc(arm["sp"]) if arm else sbr.loc(), "should_be_real does not reject a number literal exactly when |imaginary part| is non-zero (%s)" % detail, "`SET-PHASE 0 \"xy\" x * (1-2i)` with the literal built through the API (imaginary part -2) type-checks")
+    # Address: accepted exactly when the declared type IS Real: the type error sits on the "differs" side of the
+    # comparison of the region's data type with ScalarType::Real
+    key = "K7|address-leaf-real-accepted"
+    arm_a = next((a for a in m["arms"] if "Address" in k2.arm_variants(a, EXPRESSION)[0]), None)
+    ok = False
+    detail = {}
+    if arm_a is not None:
+        errs = [bb for bb, tt, cc in sbr.calls() if cc and cc.get("name") == "real_value_required" and in_span(tt["sp"], arm_a["body_sp"])]
+        detail["type_errors_in_arm"] = len(errs)
+        if len(errs) == 1:
+            for sb, tgt in sorted(sbr.control_deps(errs[0], transitive=False)):
+                tt = sbr.blocks[sb]["t"]
+                if tt["k"] != "switch":
+                    continue
+                e = fn_expr_operand(sbr, tt["d"])
+                if e[0] == "call" and e[1].rsplit("::", 1)[-1] in ("eq", "ne") and len(e[2]) == 2:
+                    names = []
+                    walk_expr(e, lambda n: names.append(n[2]) if n[0] == "field" else None)
+                    consts = [a_[1] for a_ in e[2] if a_[0] == "const" and isinstance(a_[1], str)]
+                    is_real = False
+                    for cpath in consts:
+                        for h in db.fns:
+                            if h.path == cpath:
+                                for i_, j_, st in h.stmts():
+                                    if st["k"] == "assign" and st["rv"]["k"] == "agg" and st["rv"]["a"].get("variant") == "Real":
+                                        is_real = True
+                    false_targets = [target for v, target in tt["ts"] if int(v) == 0]
+                    on_true = bool(false_targets) and tgt not in false_targets
+                    error_when_differs = on_true == (e[1].rsplit("::", 1)[-1] == "ne")
+                    ok = "data_type" in names and is_real and error_when_differs
+                    detail.update({"compares_data_type": "data_type" in names, "with_Real": is_real, "error_when_type_differs": error_when_differs})
+    res.site(key, True, dict(detail, verdict="ok" if ok else "VIOLATION"))
+    if not ok:
+        res.find(key, sbr.loc(arm_a["sp"]) if arm_a else sbr.loc(), "should_be_real does not accept a memory reference exactly when its region is declared REAL (%s)" % detail, "`DECLARE x REAL; SET-PHASE 0 \"rf\" x` is rejected and an INTEGER region is accepted")
     # ---- R3 SET/SHIFT variants
     mt = k2.match_on(db, tc, INSTRUCTION)
     m2 = max(mt, key=lambda x: len(x["arms"])) if mt else None
